@@ -15,20 +15,22 @@ import (
 
 // Node is one Code value of the model.
 type Node struct {
-	K     string            `json:"k"`               // tok stmt grp dict pair cmt tag nil
-	T     string            `json:"t,omitempty"`     // token type: id op kw lit pkg null layout
-	V     string            `json:"v"`               // text
-	Name  string            `json:"name,omitempty"`  // group name (lower case) or "custom"
-	Items []*Node           `json:"items,omitempty"` // children
-	Open  string            `json:"open"`
-	Close string            `json:"close"`
-	Sep   string            `json:"sep"`
-	Multi bool              `json:"multi"`
-	St    string            `json:"st,omitempty"`    // comment style (model side)
-	Order []int             `json:"order,omitempty"` // dict: indices sorted by key text (1-based)
-	M     map[string]string `json:"m,omitempty"`     // tag map
-	Form  string            `json:"form,omitempty"`  // func | stmt | group | funcvariant
-	Cb    int               `json:"cb,omitempty"`    // callback id (Func variants)
+	K      string            `json:"k"`               // tok stmt grp dict pair cmt tag nil
+	T      string            `json:"t,omitempty"`     // token type: id op kw lit pkg null layout
+	V      string            `json:"v"`               // text
+	Name   string            `json:"name,omitempty"`  // group name (lower case) or "custom"
+	Items  []*Node           `json:"items,omitempty"` // children
+	Open   string            `json:"open"`
+	Close  string            `json:"close"`
+	Sep    string            `json:"sep"`
+	Multi  bool              `json:"multi"`
+	St     string            `json:"st,omitempty"`    // comment style (model side)
+	Order  []int             `json:"order,omitempty"` // dict: indices sorted by key text (1-based)
+	M      map[string]string `json:"m,omitempty"`     // tag map
+	Form   string            `json:"form,omitempty"`  // func | stmt | group | funcvariant
+	Cb     int               `json:"cb,omitempty"`    // callback id (Func variants)
+	GoVal  interface{}       `json:"-"`               // literal value for Lit() (corpus translator); V holds its rendered text
+	IsRune bool              `json:"-"`
 }
 
 // Builder interprets trees. Form selects the API form per node (C14); Callback, when set,
@@ -182,8 +184,18 @@ func (a apiMissing) Error() string { return "API missing: " + a.name + " on " + 
 // by the package function (form "func") or by a method on an empty statement.
 func (b *Builder) Stmt(n *Node) *jen.Statement {
 	var s *jen.Statement
-	for i, it := range n.Items {
+	for i := 0; i < len(n.Items); i++ {
+		it := n.Items[i]
 		first := i == 0
+		// x.Sel is built with Dot(name): a "." delimiter token followed by an identifier
+		if it.K == "tok" && it.T == "delim" && it.V == "." && i+1 < len(n.Items) && n.Items[i+1].K == "tok" && n.Items[i+1].T == "id" {
+			if s == nil {
+				s = jen.Add()
+			}
+			s.Dot(n.Items[i+1].V)
+			i++
+			continue
+		}
 		var recv reflect.Value
 		if s == nil {
 			if b.form(it, first) != "func" {
@@ -241,7 +253,15 @@ func (b *Builder) item(recv reflect.Value, it *Node) *jen.Statement {
 				panic("no keyword method for " + it.V)
 			}
 			return call(recv, m)
+		case "delim":
+			return call(recv, "Op", it.V)
 		case "lit":
+			if it.GoVal != nil {
+				if it.IsRune {
+					return call(recv, "LitRune", it.GoVal)
+				}
+				return call(recv, "Lit", it.GoVal)
+			}
 			if it.Form == "funcvariant" {
 				v := LitValue(it.V)
 				return call(recv, "LitFunc", func() interface{} { b.cb("LitFunc"); return v })
